@@ -57,7 +57,13 @@ def removal_pairing(ctx, tag, side):
                         if d['k'] in ('copy', 'move'):
                             tt = P.operand(g, d, at=i)
                             if tt[0] == 'discr' and pred(tt[1]):
-                                some = dict((v, x) for v, x in b['term']['targets']).get(1)
+                                ety = None
+                                for st_ in b['stmts']:
+                                    if st_['rv']['k'] == 'discr':
+                                        ety = st_['rv'].get('ty')
+                                from .common import variant_values
+                                vals = variant_values(F, ety, ['Some', 'Continue']) if ety else None
+                                some = dict((v, x) for v, x in b['term']['targets']).get(vals[0] if vals else 1)
                                 if some is not None:
                                     hit = some
                     if hit is not None and tms:
